@@ -78,7 +78,7 @@ def probe_pool(ctx, sub):
     import glob
     out = []
     for ink in sorted(glob.glob(os.path.join(common.ROOT, "corpus", sub, "*.ink"))):
-        dst = ctx.path(f"probe_{sub}_" + os.path.basename(ink) + ".json")
+        dst = ctx.path(f"probe_{sub.replace('/', '_')}_" + os.path.basename(ink) + ".json")
         st, detail = common.compile_ink(ctx, ink, dst)
         if st != "ok":
             ctx.corr_diff("probe story does not compile", {"file": ink, "detail": str(detail)[:300]})
